@@ -10,6 +10,7 @@ import (
 	"github.com/btcsuite/btcd/address/v2/base58"
 	"github.com/btcsuite/btcd/address/v2/bech32"
 	"github.com/btcsuite/btcd/btcec/v2"
+	"github.com/btcsuite/btcd/btcutil/v2/hdkeychain"
 	"github.com/btcsuite/btcd/chaincfg/v2"
 	"github.com/btcsuite/btcd/txscript/v2"
 	"verifharness/core"
@@ -72,6 +73,11 @@ func (P) Facts() []core.Fact {
 		core.Fact{Name: "bech32mConst", Value: int64(bech32.VersionMConst)},
 		core.Fact{Name: "payToAnchorScript", Value: bytesI64(txscript.PayToAnchorScript)},
 		core.Fact{Name: "maxDataCarrierSize", Value: int64(txscript.MaxDataCarrierSize)},
+		core.Fact{Name: "secpN", Value: btcec.S256().N},
+		core.Fact{Name: "hardenedKeyStart", Value: int64(hdkeychain.HardenedKeyStart)},
+		core.Fact{Name: "minSeedBytes", Value: int64(hdkeychain.MinSeedBytes)},
+		core.Fact{Name: "maxSeedBytes", Value: int64(hdkeychain.MaxSeedBytes)},
+		core.Fact{Name: "baseLeafVersion", Value: int64(txscript.BaseLeafVersion)},
 	)
 	return fs
 }
